@@ -119,7 +119,7 @@ def prove(ctx, module, theorems, files):
     # that depend on it run it themselves and report that. Regenerating, building and copying the driver is one critical
     # section.
     with lake.Lock():
-        for name in ("extract_consts", "extract_guards", "extract_migration", "extract_validator", "extract_representor", "extract_substitutor"):
+        for name in ("extract_consts", "extract_guards", "extract_migration", "extract_validator", "extract_representor", "extract_substitutor", "extract_effects"):
             try:
                 import importlib
                 importlib.import_module("harness." + name).run()
@@ -284,6 +284,20 @@ def main(argv, cov=None):
     except lake.subprocess.TimeoutExpired as e:
         print(f"timeout: {e}", file=sys.stderr)
         return 2
-    except Exception:
+    except Exception as e:  # noqa: BLE001
+        # an exception that escaped while the harness was merely building or OBSERVING a case (repr, ==, props, a declaration
+        # of its fixed corpus): if it was raised inside the library under test it is the library's doing — on the unchanged tree
+        # none of these raise — and the run is reported as a broken correspondence; anything raised by the harness' own code
+        # is a tooling error (exit 2)
+        tb = traceback.extract_tb(e.__traceback__)
+        inner = tb[-1].filename if tb else ""
+        lib = os.path.realpath(os.path.join(REPO, "d42")) + os.sep
+        if os.path.realpath(inner).startswith(lib):
+            where = "%s:%d in %s" % (os.path.relpath(inner, REPO), tb[-1].lineno, tb[-1].name)
+            ctx.breakage("correspondence", "the library raised %s while the harness was building or observing a case (%s); the "
+                         "run stopped there" % (type(e).__name__, where),
+                         traceback="".join(traceback.format_exception(type(e), e, e.__traceback__))[-3000:])
+            traceback.print_exc()
+            return finish(ctx, **getattr(mod, "EVIDENCE", {}))
         traceback.print_exc()
         return 2
